@@ -15,8 +15,8 @@ BUDGET = {"quick": 900, "thorough": 3400}
 NS = {"quick": (1, 2, 3, 4), "thorough": (0, 1, 2, 3, 4, 5, 6)}
 
 META = dict(
-    rule="configs-as-programs x tables x front ends: tables of n rows (daily timestamps, columns v,w and optional "
-         "z / lat+lon); one-context programs with EVERY window (starting,ending) over {None} + {t0-1d, every row time, "
+    rule="configs-as-programs x tables x front ends: tables of n rows (daily timestamps in increasing and in shuffled, non-monotonic order; columns v,w and "
+         "optional z / lat+lon); one-context programs with EVERY window (starting,ending) over {None} + {t0-1d, every row time, "
          "every row time+12h, last+1d} (closed, half-open, empty, inverted, rows exactly on starting and on ending), "
          "streams {v} and {v,w}, test sets {probe}, {spike, rate_of_change}, {probe, depth-banded climatology, location}; "
          "two-context programs over every ordered pair of windows from a coarse grid; window bounds as ISO strings and "
@@ -98,7 +98,7 @@ def mask_symptom(obs_mask, it, times):
 
 def check_case(case):
     S.install_probes()
-    tab = S.table(case["n"], case["z"], case["ll"])
+    tab = S.table(case["n"], case["z"], case["ll"], case.get("shuffled", False))
     fe = case["fe"]
     contexts = case["contexts"]
     cfgd = S.make_config(contexts, case.get("style", "str"))
@@ -292,4 +292,7 @@ def run_task(task, acc):
                 if len(ctxs) > 1:
                     continue
             yield dict(n=n, z=need["z"], ll=need["ll"], fe=fe, contexts=ctxs, style=style, testset=ts_name)
+            if n >= 3 and ts_name in ("probe_z", "neigh"):
+                # the same program on a table whose time column is not monotonic
+                yield dict(n=n, z=need["z"], ll=need["ll"], fe=fe, contexts=ctxs, style=style, testset=ts_name, shuffled=True)
     run_cases(acc, gen(), check_case)
